@@ -114,7 +114,7 @@ func vfGreater(ls []float32, x float32) int {
 // VerifC18Sample: the probabilistic path. Logits finite or -Inf with at least one finite value;
 // temperature > 0; every top-k, top-p, min-p; arbitrary draw. Decided: no panic, a token inside the
 // vocabulary, never a -Inf logit, inside the top-k set, and an error only for a NaN sum.
-func VerifC18Sample(n int) {
+func vfDrawLogits(n int) []float32 {
 	logits := make([]float32, n)
 	someFinite := false
 	for i := range logits {
@@ -128,15 +128,13 @@ func VerifC18Sample(n int) {
 		logits[i] = l
 	}
 	verifAssume(someFinite)
+	return logits
+}
+
+func vfCheckSample(s *Sampler, logits []float32, k int) {
+	n := len(logits)
 	orig := make([]float32, n)
 	copy(orig, logits)
-	temp := verifNondetF32("temperature")
-	verifAssume(temp > 0 && temp <= 100)
-	k := verifNondetInt("topK")
-	verifAssume(k >= -1 && k <= n+1)
-	topP, minP := verifNondetF32("topP"), verifNondetF32("minP")
-	verifAssume(topP == topP && minP == minP)
-	s := NewSampler(temp, k, topP, minP, -1, nil)
 	tok, err := s.Sample(logits)
 	verifReach("sampled")
 	if err != nil {
@@ -151,4 +149,34 @@ func VerifC18Sample(n int) {
 			verifAssert(vfGreater(orig, orig[tok]) < k, "token-is-inside-the-top-k")
 		}
 	}
+}
+
+func vfArbSampler(n int) (*Sampler, int) {
+	var s Sampler
+	temp := verifNondetF32("temperature")
+	verifAssume(temp > 0 && temp <= 100)
+	k := verifNondetInt("topK")
+	verifAssume(k >= -1 && k <= n+1)
+	topP, minP := verifNondetF32("topP"), verifNondetF32("minP")
+	verifAssume(topP == topP && minP == minP)
+	s = NewSampler(temp, k, topP, minP, -1, nil)
+	return &s, k
+}
+
+func VerifC18Sample(n int) {
+	logits := vfDrawLogits(n)
+	s, k := vfArbSampler(n)
+	vfCheckSample(s, logits, k)
+}
+
+// VerifC18SampleTwice: two consecutive calls on ONE sampler (a sampler lives for a whole generation): the
+// second call is held to the same standard as the first, whatever the first one left behind.
+func VerifC18SampleTwice(n int) {
+	l1, l2 := vfDrawLogits(n), vfDrawLogits(n)
+	s, k := vfArbSampler(n)
+	if _, err := s.Sample(l1); err != nil {
+		return
+	}
+	verifReach("first-call-done")
+	vfCheckSample(s, l2, k)
 }
